@@ -80,11 +80,10 @@ def gen(ctx, deep):
                 jobs.append((lcfg, [a, ("load", None)]))
         short = G[0][:-1]
         cfg0 = ec.Config(shape, adapter=True, watcher=None, initial=inits[0])
-        cfg0.noq = True  # which links exist after a call raised half-way is C04's subject, and outside its domain
         for bad in ([G[0], short], [short, G[0]], [short]):
-            jobs.append((cfg0, [("addmany", "g", bad)]))
-            jobs.append((cfg0, [("add", "g", G[1]), ("addmany", "g", bad)]))
-        jobs.append((cfg0, [("add", "g", short)]))
+            jobs.append((cfg0, [("addmany", "g", bad), ("load", None)]))
+            jobs.append((cfg0, [("add", "g", G[1]), ("addmany", "g", bad), ("load", None)]))
+        jobs.append((cfg0, [("add", "g", short), ("load", None)]))
         # the async enforcer has its own copies of the internal paths
         acfg = ec.Config(shape, adapter=True, watcher=None, initial=inits[1], is_async=True)
         for a in ops:
